@@ -239,3 +239,11 @@ func (w WitnessKey) SigHash() uint32 {
 	}
 	return w.K.Hash()
 }
+
+// Verifier returns the library verifier matching Signer.
+func (w WitnessKey) Verifier() note.Verifier {
+	if w.Kind == WKCosig {
+		return w.K.CosigSigner().Verifier()
+	}
+	return w.K.Verifier()
+}
